@@ -198,7 +198,7 @@ func (e *env) splitCases() {
 		}
 	} else {
 		pads = []int{0, 1, 2, 15, 16, 17, 31, 100, 1307, 1308}
-		for i := 0; i < 4; i++ {
+		for i := 0; i < 22; i++ {
 			pads = append(pads, rng.Range(3, 1306))
 		}
 	}
@@ -408,7 +408,7 @@ func (e *env) splitCase(c Case, pre *splitPre) {
 // ---------------------------------------------------------------- parser hook on valid and malformed responses
 
 func (e *env) hsParseCases() {
-	n := e.r.Scale(120, 2500)
+	n := e.r.Scale(400, 2500)
 	for i := 0; i < n; i++ {
 		e.hsParseCase(Case{Kind: "hs-parse", Seed: e.seed, Sub: uint64(i)})
 	}
